@@ -54,6 +54,9 @@ pub struct Render { pub crlf: bool, pub quotes: u8, pub spaces: u8, pub comments
 /// the value source `src` (0 env, 1 file, 2 cli) supplies for a setting; ports are filled in per run
 fn value_of(setting: &str, src: usize, ports: &[u16; 3], bools: u8) -> String {
     let b = |k: usize| if (bools >> k) & 1 == 1 { "true" } else { "false" };
+    // a list may be given explicitly empty by a source (-o=, allow_origins = [], an empty variable): that is a value and takes part in the precedence
+    // like any other (bits 3..5 of the setting's selector byte, set in a quarter of the sampled cases)
+    if is_list(setting) && (bools >> (src + 3)) & 1 == 1 { return String::new(); }
     match setting {
         "ip" => ["127.0.0.2", "127.0.0.3", "127.0.0.4"][src].to_string(),
         "port" => ports[src].to_string(),
@@ -82,7 +85,7 @@ fn render_file(c: &Case, ports: &[u16; 3]) -> Option<String> {
         let key_base = if *s == "request_allocation_size_in_bytes" { "request_allocation_size_in_bytes" } else { s };
         let key = if (r.hyphen_keys >> i) & 1 == 1 { key_base.replace('_', "-") } else { key_base.to_string() };
         let q = if (r.quotes >> (i % 8)) & 1 == 1 { "\"" } else { "'" };
-        let rendered = if is_list(s) { format!("[{}]", v.split(',').map(|x| format!("{}{}{}", q, x, q)).collect::<Vec<_>>().join(if r.spaces % 2 == 0 { ", " } else { "," })) }
+        let rendered = if is_list(s) && v.is_empty() { if r.spaces % 2 == 0 { "[]".to_string() } else { "[ ]".to_string() } } else if is_list(s) { format!("[{}]", v.split(',').map(|x| format!("{}{}{}", q, x, q)).collect::<Vec<_>>().join(if r.spaces % 2 == 0 { ", " } else { "," })) }
             else if matches!(*s, "port" | "thread_count" | "request_allocation_size_in_bytes" | "allow_all" | "allow_credentials") && (r.quotes >> ((i + 3) % 8)) & 1 == 0 { v.clone() }
             else { format!("{}{}{}", q, v, q) };
         let comment = match (r.comments >> (i % 4)) & 3 { 1 => " # a trailing comment".to_string(), 2 => "#tight".to_string(), _ => String::new() };
@@ -215,6 +218,7 @@ fn eval_in(ctx: &Ctx, c: &Case, docroot: &std::path::Path) -> Verdict {
     if let Some(e) = srv.exited() { problems.push(("server-process-gone".to_string(), e)); }
     let multi = c.subsets.iter().any(|s| s.count_ones() >= 2);
     if c.render.tabs { classes.push("config-with-tab-blanks"); }
+    if SETTINGS.iter().enumerate().any(|(i, s)| is_list(s) && (0..3).any(|src| (c.subsets[i] >> src) & 1 == 1 && value_of(s, src, &[1, 2, 3], c.bools[i]).is_empty())) { classes.push("a-source-gives-an-empty-list"); }
     if c.render.layout & 0x7ff != 0 { classes.push("config-with-indented-keys"); }
     if c.render.layout & 0x3800 != 0 { classes.push("config-table-header-with-layout-blanks"); }
     if c.subsets.iter().any(|s| s & 2 != 0) { classes.push("with-config-file"); }
@@ -262,7 +266,7 @@ pub fn run(ctx: &Ctx) {
     ctx.clear_inflight();
     if ctx.worker == 0 { ctx.mark_exhaustive("exhaustive"); }
     let render = (any::<bool>(), any::<u8>(), any::<u8>(), any::<u8>(), any::<u16>(), any::<u64>(), proptest::bool::weighted(0.1), prop_oneof![2 => Just(0u16), 3 => any::<u16>()]).prop_map(|(crlf, quotes, spaces, comments, hyphen_keys, order, tabs, layout)| Render { crlf, quotes, spaces, comments, hyphen_keys, order, tabs, layout });
-    let strat = (proptest::collection::vec(0u8..8, 11), proptest::collection::vec(0u8..8, 11), any::<u16>(), render).prop_map(|(mut subsets, bools, short_flags, render)| {
+    let strat = (proptest::collection::vec(0u8..8, 11), proptest::collection::vec(prop_oneof![3 => 0u8..8, 1 => 0u8..64], 11), any::<u16>(), render).prop_map(|(mut subsets, bools, short_flags, render)| {
         // keep most runs away from the shared default port
         if subsets[1] == 0 && short_flags % 8 != 0 { subsets[1] = 1; }
         // keep the CORS sub-settings observable in most runs: the allow-all switch is mostly false wherever it is supplied
